@@ -22,7 +22,9 @@ TIERS = {"quick": dict(cases=420, shards=8, case_timeout=300, shard_timeout=1500
          "thorough": dict(cases=4200, shards=16, case_timeout=300, shard_timeout=3400)}
 FLOORS = {"quick": {"states_norm_checked": 300, "v1_v2_states_compared": 100, "density_matrices_checked": 100,
                     "rabi_checked": 30, "bitstring_conventions_checked": 60, "detection_error_checks": 20,
-                    "sweep_runs": 500, "v2_noisy_density_matrices_checked": 60},
+                    "sweep_runs": 500, "v2_noisy_density_matrices_checked": 60,
+                    "reconfigured_emulators_compared": 30, "v1_v2_density_matrices_compared": 30,
+                    "reduced_states_with_eliminated_population": 40},
           "thorough": {"sweep_runs": 6000}}
 WEIGHTS = {"sample": 0, "str": 0, "to_abstract_repr": 0, "build_copy": 0, "queries": 0, "get_duration": 0,
            "estimate_added_delay": 0, "is_in_eom_mode": 0, "current_phase_ref": 0, "measure": 0.0, "add": 12,
@@ -179,6 +181,104 @@ def w_dissipative(ctx, rng, idx):
         if lam.min() < -1e-6:
             ctx.violation("positive", f"{kind}: smallest eigenvalue of rho is {lam.min()!r}", "rho-not-positive")
     ctx.mark_nontrivial(("diss", kind, n, ch, D, tuple(sorted((k, str(v)[:12]) for k, v in kw.items()))))
+    # ---- same sequence and configuration => same states: a fresh legacy emulator, one that went through another
+    #      configuration first, and the V2 backend -------------------------------------------------------------
+    from pulser.backend.default_observables import StateResult
+    from pulser_simulation import QutipBackendV2, QutipConfig
+
+    def rhos(states):
+        out = []
+        for st in states:
+            m = np.asarray((st.to_qobj() if hasattr(st, "to_qobj") else st).full())
+            out.append(m @ m.conj().T if m.shape[1] == 1 else m)
+        return out
+
+    fresh = rhos(res.states)
+    other = [dict(dephasing_rate=0.7, hyperfine_dephasing_rate=0.2), dict(depolarizing_rate=0.6),
+             dict(relaxation_rate=0.8) if ch == "rydberg_global" else dict(depolarizing_rate=1.1)][idx // 5 % 3]
+    how = ["set_config", "add_config+set_config", "run+set_config"][idx // 3 % 3]
+    ctx.case["config_history"] = [how, {k: v for k, v in other.items()}]
+    try:
+        with warnings.catch_warnings():
+            warnings.simplefilter("ignore")
+            emu2 = QutipEmulator.from_sequence(seq, config=SimConfig.from_noise_model(pulser.NoiseModel(**other)))
+            if how.startswith("add_config"):
+                emu2.add_config(SimConfig.from_noise_model(nm))
+            if how.startswith("run"):
+                emu2.run()
+            emu2.set_config(SimConfig.from_noise_model(nm))
+            emu2.set_evaluation_times([D * f / 1000 for f in (0.25, 0.5, 1.0)])
+            again = rhos(emu2.run().states)
+    except Exception as e:
+        ctx.violation("dissipative-raises", f"{kind}: re-configured emulator raised {type(e).__name__}: {str(e)[:200]}",
+                      f"dissipative-raises:reconfigured:{type(e).__name__}")
+        return
+    ctx.count("reconfigured_emulators_compared")
+    dmax = max(float(np.max(np.abs(a - b))) for a, b in zip(fresh, again))
+    if len(fresh) != len(again) or dmax > 1e-6:
+        ctx.violation("config-history", f"{kind}: an emulator configured with {sorted(other)} first and then set to the same "
+                      f"configuration gives states differing by {dmax:.3g} from a fresh emulator", "reconfigured-emulator-differs")
+    try:
+        with warnings.catch_warnings():
+            warnings.simplefilter("ignore")
+            cfg = QutipConfig(observables=[StateResult(evaluation_times=[0.25, 0.5, 1.0])], noise_model=nm)
+            v2 = rhos(QutipBackendV2(seq, config=cfg).run().state)
+    except Exception as e:
+        ctx.violation("v2-raises", f"V2 with {kind} raised {type(e).__name__}: {str(e)[:200]}",
+                      f"v2-raises:dissipative:{type(e).__name__}")
+        return
+    leg = fresh[1:] if len(fresh) == len(v2) + 1 else fresh  # (the legacy results also hold the initial state)
+    if len(v2) == len(leg):
+        ctx.count("v1_v2_density_matrices_compared")
+        dmax = max(float(np.max(np.abs(a - b))) for a, b in zip(leg, v2))
+        if dmax > 2e-3:
+            ctx.violation("backends-differ", f"{kind}: legacy and V2 density matrices differ by {dmax:.3g}",
+                          "backends-differ:dissipative")
+
+
+def w_reduce(ctx, rng, idx):
+    """Three-level noiseless run; the state handed out in a two-level sub-basis is still a normalised state."""
+    import pulser
+    from pulser_simulation import QutipEmulator
+
+    small = [0.02, 0.05, 0.09, 0.12][idx // 14 % 4]      # rotation angle on the level to be eliminated
+    which = ["digital-small", "rydberg-small"][idx // 56 % 2]
+    n = 1 + (idx // 112) % 2
+    reg = pulser.Register({f"q{i}": (i * 60.0, 0.0) for i in range(n)})
+    seq = pulser.Sequence(reg, pulser.MockDevice)
+    seq.declare_channel("ryd", "rydberg_global")
+    seq.declare_channel("ram", "raman_global")
+    D = 200
+    big = pulser.Pulse.ConstantPulse(D, (math.pi / 2) / (D * 1e-3), 0.0, 0.3)
+    tiny = pulser.Pulse.ConstantPulse(D, small / (D * 1e-3), 0.0, 0.0)
+    seq.add(tiny if which == "digital-small" else big, "ram")
+    seq.add(big if which == "digital-small" else tiny, "ryd")
+    keep = "ground-rydberg" if which == "digital-small" else "digital"
+    ctx.case = {"reduce": {"eliminated_rotation": small, "which": which, "n": n, "reduce_to_basis": keep}}
+    with warnings.catch_warnings():
+        warnings.simplefilter("ignore")
+        res = QutipEmulator.from_sequence(seq).run()
+    for tol in (1e-2, 0.2):
+        for getter, label in ((lambda **kw: res.get_final_state(**kw), "final"),
+                              (lambda **kw: res.get_state(res._sim_times[len(res._sim_times) // 2 + 1], **kw), "middle")):
+            try:
+                st = getter(reduce_to_basis=keep, tol=tol)
+                raw = getter(reduce_to_basis=keep, tol=tol, normalize=False)
+            except TypeError:
+                ctx.count("reduce_refused_population_above_tol")
+                continue
+            v, w = np.asarray(st.full()).ravel(), np.asarray(raw.full()).ravel()
+            ctx.count("reduced_states_checked")
+            if 1 - np.linalg.norm(w) > 1e-5:
+                ctx.count("reduced_states_with_eliminated_population")
+            if len(v) != 2 ** n:
+                ctx.violation("reduce", f"reduced state has dimension {len(v)} for {n} atoms", "reduce-dim")
+            if abs(np.linalg.norm(v) - 1) > 1e-6:
+                ctx.violation("norm", f"{label} state reduced to {keep} (tol={tol}) has norm {np.linalg.norm(v)!r} "
+                              f"(unnormalised {np.linalg.norm(w)!r})", "norm:reduced")
+            elif np.linalg.norm(w) > 0 and np.max(np.abs(v - w / np.linalg.norm(w))) > 1e-6:
+                ctx.violation("reduce", "normalised and unnormalised reduced states are not proportional", "reduce-proportional")
+    ctx.mark_nontrivial(("reduce", small, which, n))
 
 
 def w_rabi(ctx, rng, idx):
@@ -440,6 +540,8 @@ def run_case(ctx, idx, rng, tier):
     if idx % 8 == 7:
         return w_v2_noisy(ctx, rng, idx)
     w = idx % 7
+    if idx % 14 == 6:
+        return w_reduce(ctx, rng, idx)
     if w == 0:
         w_norm_agree(ctx, rng, idx)
     elif w == 1:
